@@ -21,7 +21,8 @@ let eval (prev : state) (op : op) (r : result) (next : state) : (string * bool) 
     ("retained", BackendSpec.retained_ok prev op r next && BackendSpec.retained_wf next &&
                  BackendSpec.closing_accepted_ok prev op r next);
     ("closing_accepted", BackendSpec.closing_accepted_ok prev op r next);
-    ("replay", BackendSpec.replay_ok prev op r next);
+    (* replays come only from a Subscribe of the connection: a resumed stored session starts with an empty temporary queue *)
+    ("replay", BackendSpec.replay_ok prev op r next && BackendC13.resume_clean_ok prev op r next);
     (* delivery log, judged on this step alone: queued messages stay until dequeued, whatever Subscribe/Unsubscribe do *)
     ("delivery", BackendLog.delivery_ok prev op r next);
     (* everything else is unchanged: subscriptions, active connections, which sessions exist *)
